@@ -2,7 +2,11 @@
 
 package authip
 
-import "sort"
+import (
+	"sort"
+
+	"github.com/cornelk/hashmap"
+)
 
 // VerifLoad parses the whitelist file at path the way the reload path does (add-only, tag verif).
 func VerifLoad(path string) error {
@@ -22,10 +26,12 @@ func VerifDump() (bool, []string) {
 	return IpMap.enable, ips
 }
 
-// VerifReset empties the map and disables the whitelist.
+// VerifReset starts from an empty map with the whitelist disabled.  The map is replaced, not
+// emptied key by key, and it is created large enough never to grow during a harness run:
+// cornelk/hashmap v1.0.1 resizes in a background goroutine, and a deletion that overlaps a resize
+// can leave a key reachable.  Production grows its map once, at start-up, long before any reload;
+// a harness that resets thousands of times a second would otherwise sit in that window.
 func VerifReset() {
 	IpMap.enable = false
-	for kv := range IpMap.Iter() {
-		IpMap.Del(kv.Key)
-	}
+	IpMap.HashMap = *hashmap.New(256)
 }
